@@ -1,0 +1,8 @@
+//go:build verif
+
+// Contracts for the network configuration (machine-checked by /verif's VC
+// generator; comment-only, adds no code).
+package config
+
+// DefaultConfig is assigned by the package initialiser only; its ban map is allocated there.
+//@ globalinv defaultbanned: DefaultConfig.Banned != nil
